@@ -171,6 +171,10 @@ def special_sets(g):
             [(0, 4096)], [(0, 4095)],                                   # just above / at the array threshold
             [(v, v)],                                                   # single
             [(CH - 1, CH - 1)], [(0, 0)],
+            # ONE short run that straddles a 64-bit word edge (its partner may be a bitmap container)
+            (lambda a, n: [(a, a + n - 1)])(64 * r.randrange(1, 1023) - r.randrange(1, 40), r.choice([41, 50, 63, 64])),
+            [(63, 64)],
+            [(0, 40000)],      # a dense partner for them
             rand_set(g)]
 
 
@@ -186,7 +190,9 @@ def _kernspecial(g, scale):
                 if card(a) == 0 or card(b) == 0:
                     continue
                 shortcut = ia < 2 or ib < 2          # an operand is full / full-minus-one: every kernel has a special branch
-                if not shortcut and r.random() < 0.6:
+                if {ia, ib} & {7, 8} and {ia, ib} & {2, 9, 0}:
+                    shortcut = True                  # a short straddling run against a dense (bitmap) partner: always, all kernels
+                if not shortcut and r.random() < 0.8:
                     continue
                 for ka in ("A", "B", "R"):
                     for kb in ("A", "B", "R"):
